@@ -127,6 +127,13 @@ class InputExp(_Validation, fsm.FSM):
         self.sdata['input'] = value
         return True
 
+    def _restore_state(self, istate: Sequence, /) -> None:
+        """A restored value must pass the same validation as any other value."""
+        if len(istate) > 2 and 'input' in istate[2]:
+            sdata = {**istate[2], 'input': self._validate(istate[2]['input'])}
+            istate = [*istate[:2], sdata]
+        super()._restore_state(istate)
+
     def on_enter_expired(self) -> None:
         self.sdata.pop('input', None)
 
